@@ -623,6 +623,68 @@ func c09Jobs() []sjob {
 	return jobs
 }
 
+// ---------------- C12 (concurrent accounting) ----------------
+
+func c12SchedJobs() []sjob {
+	cfg := c12Config()
+	key := []byte("acct-key")
+	mk := func(user, port string, sid uint32, args ...string) (*ref.Msg, []byte) {
+		m := ref.NewMsg()
+		m.N["flags"], m.N["authen_method"], m.N["priv_lvl"], m.N["authen_type"], m.N["authen_service"] = 2, 6, 1, 1, 1
+		m.S["user"], m.S["port"], m.S["rem_addr"] = []byte(user), []byte(port), []byte("10.9.9.9")
+		for _, a := range args {
+			m.Args = append(m.Args, []byte(a))
+		}
+		body, _ := ref.AcctRequest.Encode(m)
+		return m, ref.Packet(ref.Header{Version: 0xc0, Type: 3, Seq: 1, Session: sid}, key, body)
+	}
+	body := func(sameConn bool) func(x *sx) {
+		return func(x *sx) {
+			w := newSWorldR(cfg, nil)
+			w.serve()
+			m1, p1 := mk("acct", "tty1", 1, "task_id=1", "cmd=show running-config <cr>")
+			m2, p2 := mk("viagroup", "tty22", 2, "task_id=22", "cmd=reload in 5 <&>")
+			var r1, r2 [][]byte
+			var wg vsyncrt.WaitGroup
+			wg.Add(2)
+			c1 := w.W.NewConn(1, srvx.Addr4(10, 0, 0, 1, 1201))
+			c2 := w.W.NewConn(2, srvx.Addr4(10, 0, 0, 2, 1202))
+			vsyncrt.Go(func() { sclient(w, c1, [][]byte{p1}, &r1, true); wg.Done() })
+			vsyncrt.Go(func() { sclient(w, c2, [][]byte{p2}, &r2, true); wg.Done() })
+			wg.Wait()
+			w.shutdown()
+			calls := w.sink.take()
+			for i, pr := range []struct {
+				m *ref.Msg
+				r [][]byte
+			}{{m1, r1}, {m2, r2}} {
+				if len(pr.r) != 1 || replyStatus(key, pr.r[0], 3) != 1 {
+					x.fail("C12/concurrent-not-acknowledged", fmt.Sprintf("request %d was not answered SUCCESS", i+1))
+					continue
+				}
+				n := 0
+				for _, cl := range calls {
+					if checkRecord(cl.Rendered(), pr.m) == "" {
+						n++
+					}
+				}
+				if n != 1 {
+					var lines []string
+					for _, cl := range calls {
+						lines = append(lines, trunc(cl.Rendered(), 160))
+					}
+					x.fail("C12/concurrent-record", fmt.Sprintf("request %d was acknowledged but %d sink records say what it sent; sink has %q", i+1, n, lines))
+				}
+			}
+			if len(calls) != 2 {
+				x.fail("C12/concurrent-record-count", fmt.Sprintf("%d sink records for 2 acknowledged requests", len(calls)))
+			}
+			x.obs = fmt.Sprint(len(calls))
+		}
+	}
+	return []sjob{{"two connections send accounting records concurrently", body(false)}}
+}
+
 // ---------------- explorer ----------------
 
 type schedReplay struct {
@@ -640,6 +702,8 @@ func jobsFor(id string, quick bool) []sjob {
 		return c17Jobs(quick)
 	case "C09":
 		return c09Jobs()
+	case "C12":
+		return c12SchedJobs()
 	}
 	return nil
 }
